@@ -87,17 +87,17 @@ Proof. intros. rewrite (guard_exact_LogisticRegressionParams prec emax) by assum
 
 Theorem guard_exact_FastIcaParams : forall prec emax fm p, fmt_ok prec emax fm ->
   wf prec emax (FastIcaValidParams_tol p) ->
-  (check_ref_FastIcaParams fm p = None <-> 0 <= val (FastIcaValidParams_tol p)).
+  (check_ref_FastIcaParams fm p = None <->
+   0 <= val (FastIcaValidParams_tol p) /\ logcosh_ok (FastIcaValidParams_gfunc p) = true).
 Proof. intros. rewrite (exact_FastIca prec emax), (act_FastIca prec emax) by assumption. reflexivity. Qed.
 
 (* "tolerance should be positive"; "If the alpha value set for GFunc::Logcosh is not between 1 and 2 inclusive" *)
 Theorem guard_FastIcaParams_vs_documentation : forall prec emax fm p, fmt_ok prec emax fm ->
   wf prec emax (FastIcaValidParams_tol p) ->
-  logcosh_ok (FastIcaValidParams_gfunc p) = true ->                                                       (* F-C04-1 *)
   (0 < val (FastIcaValidParams_tol p) /\ logcosh_ok (FastIcaValidParams_gfunc p) = true -> check_ref_FastIcaParams fm p = None)
   /\ (check_ref_FastIcaParams fm p = None ->
       0 <= val (FastIcaValidParams_tol p) /\ logcosh_ok (FastIcaValidParams_gfunc p) = true).
-Proof. intros. rewrite (guard_exact_FastIcaParams prec emax) by assumption. split; intros; [lra | split; [lra | assumption]]. Qed.
+Proof. intros. rewrite (guard_exact_FastIcaParams prec emax) by assumption. split; intros; [split; [lra | tauto] | assumption]. Qed.
 
 (* the boolean above over the reals (alpha is an f64) *)
 Theorem logcosh_alpha_range : forall g, match g with GFunc_Logcosh a => wf 53 1024 a | _ => True end ->
@@ -407,10 +407,12 @@ Theorem guard_DecisionTreeParams_refuted_F21 : exists p,
   /\ check_ref_DecisionTreeParams fmt64 p <> None.
 Proof. exact refuted_F21. Qed.
 
-(* F-C04-1: Logcosh(10) is outside the documented [1, 2] and is accepted *)
-Theorem guard_FastIcaParams_refuted_FC041 : exists p,
-  (exists a, FastIcaValidParams_gfunc p = GFunc_Logcosh a /\ wf 53 1024 a /\ 2 < val a)
-  /\ check_ref_FastIcaParams fmt64 p = None.
+(* F-C04-1 (fixed in /repo 6e23381): Logcosh(10) is outside the documented [1, 2]; the guard as it was before the
+   repair (Spec.check_ref_FastIcaParams_before_FC041) accepted it, the current guard rejects it *)
+Theorem guard_FastIcaParams_refuted_FC041 :
+  (exists a, FastIcaValidParams_gfunc wit_FC041 = GFunc_Logcosh a /\ wf 53 1024 a /\ 2 < val a)
+  /\ check_ref_FastIcaParams_before_FC041 fmt64 wit_FC041 = None
+  /\ check_ref_FastIcaParams fmt64 wit_FC041 <> None.
 Proof. exact refuted_FC041. Qed.
 
 (* F42: max_iterations = 0 is outside the documented [1, inf) and is accepted *)
@@ -577,10 +579,10 @@ Theorem oracle_ranges_FastIcaParams : forall prec emax fm p, fmt_ok prec emax fm
    0 < val (FastIcaValidParams_tol p) /\ logcosh_ok (FastIcaValidParams_gfunc p) = true)
   /\ (g_loose (spec_FastIcaParams fm p) = true <->
    0 <= val (FastIcaValidParams_tol p) /\ logcosh_ok (FastIcaValidParams_gfunc p) = true)
-  /\ (g_known (spec_FastIcaParams fm p) = 0%N <-> logcosh_ok (FastIcaValidParams_gfunc p) = true).
+  /\ g_known (spec_FastIcaParams fm p) = 0%N.
 Proof.
   intros prec emax fm p Hfm H.
-  split; [exact (strict_FastIca prec emax fm Hfm p H)|]. split; [exact (loose_FastIca prec emax fm Hfm p H) | exact (known_FastIca fm p)].
+  split; [exact (strict_FastIca prec emax fm Hfm p H)|]. split; [exact (loose_FastIca prec emax fm Hfm p H) | reflexivity].
 Qed.
 
 Theorem oracle_ranges_HierarchicalCluster : forall prec emax fm p, fmt_ok prec emax fm ->
